@@ -211,7 +211,7 @@ static void round_on(long r, int fam, int mut, bool enabled, Mk make)
     auto& rng = R.rng;
     int nt = rng.chance(15) ? 1 : static_cast<int>(rng.range(2, 3));
     std::vector<std::vector<Cycle>> scripts;
-    static const int durs[] = {0, 50, 2000};
+    static const int durs[] = {0, 50, 2000, -1000};  // a negative duration / a time point in the past: one attempt, no wait
     for (int t = 0; t < nt; t++) {
         std::vector<Cycle> sc;
         int n = static_cast<int>(rng.range(1, 4));
@@ -221,7 +221,7 @@ static void round_on(long r, int fam, int mut, bool enabled, Mk make)
             c.form = static_cast<int>(rng.below(NFORM));
             c.rel = static_cast<int>(rng.below(NREL));
             c.hold = static_cast<int>(rng.below(5));
-            c.dur_us = durs[rng.below(3)];
+            c.dur_us = durs[rng.below(4)];
             c.moved_from_first = rng.chance(50);
             c.submit_first = (fam == DEFERRED) && rng.chance(40);
             sc.push_back(c);
